@@ -411,7 +411,8 @@ def run(ctx):
             if printed != want:
                 ctx.violation("stdout is not the selected buildpacks", f"{label}: printed {printed}, selected {want}", {"label": label}, "cargo_libcnb")
             order = progress_order(p.stderr)
-            order_events.append({"kind": "order", "deps": {b: ws.deps_of(b) for b in ws.all_ids()}, "roots": ws.all_ids(), "order": order, "ok": True})
+            if order:   # (informational here; C13 observes the order at the file system, independent of the wording)
+                order_events.append({"kind": "order", "deps": {b: ws.deps_of(b) for b in ws.all_ids()}, "roots": ws.all_ids(), "order": order, "ok": True})
             for b in ws.all_ids():
                 for e in compare(ws, b, pkgdir, profile, fresh_run=True):
                     ctx.violation("fresh output incomplete", f"{label}: {e}", {"label": label, "buildpack": b}, "cargo_libcnb")
@@ -479,7 +480,8 @@ def run(ctx):
                 if p.stdout.split() != [out_dir(pkgdir, profile, b)]:
                     ctx.violation("stdout is not the selected buildpack", f"{label}: from {ws.dir_of(b)} printed {p.stdout.split()}", {"label": label, "buildpack": b}, "cargo_libcnb")
                 order = progress_order(p.stderr)
-                order_events.append({"kind": "order", "deps": {x: ws.deps_of(x) for x in ws.all_ids()}, "roots": [b], "order": order, "ok": True})
+                if order:
+                    order_events.append({"kind": "order", "deps": {x: ws.deps_of(x) for x in ws.all_ids()}, "roots": [b], "order": order, "ok": True})
                 for o, before in others_before.items():
                     if snapshot(out_dir(pkgdir, profile, o)) != before:
                         ctx.violation("unselected buildpack touched", f"{label}: packaging {b} changed the output of {o}", {"label": label}, "cargo_libcnb")
